@@ -71,7 +71,12 @@ func strVal(v *schema.SQLValue) string {
 
 // alterSQLReply: alterations specific to VerifiableSQLEntry (the generic ones go through alterReply on its VerifiableTx).
 func (f *e2eFixture) alterSQLReply(rt *rapid.T, m *schema.VerifiableSQLEntry, lib []proto.Message) string {
-	switch rapid.SampledFrom([]string{"generic", "generic", "generic", "value", "catalog", "catalog", "nil", "iproof", "tx"}).Draw(rt, "sqlAlter") {
+	kinds := []string{"generic", "generic", "generic", "value", "catalog", "catalog", "nil", "iproof", "tx"}
+	if f.sqlForged != "" {
+		// the caller holds a forged row: an adversary would go for the catalog information of the reply
+		kinds = append(kinds, "catalog", "catalog", "catalog", "catalog", "catalog", "catalog")
+	}
+	switch rapid.SampledFrom(kinds).Draw(rt, "sqlAlter") {
 	case "generic":
 		if m.VerifiableTx == nil {
 			return "sql.generic:absent"
@@ -81,7 +86,13 @@ func (f *e2eFixture) alterSQLReply(rt *rapid.T, m *schema.VerifiableSQLEntry, li
 		if m.SqlEntry == nil {
 			return "sql.value:absent"
 		}
-		m.SqlEntry.Value = flipBytes(rt, m.SqlEntry.Value, "sqlVal")
+		// the first 4 bytes are the column count, which decodeRow uses as an allocation size without a bound
+		// (C16's finding F12): leave them alone, alter the rest of the encoded row
+		v := m.SqlEntry.Value
+		if len(v) <= 4 {
+			return "sql.value:short"
+		}
+		m.SqlEntry.Value = append(append([]byte{}, v[:4]...), flipBytes(rt, v[4:], "sqlVal")...)
 		return "sql.value.flip"
 	case "tx":
 		if m.SqlEntry == nil {
